@@ -481,3 +481,35 @@ def cl1(facts, rep, types, rule='CL-1'):
             rep.bad(rule, key, b.loc(w[0]), 'the clone\'s scoring is `%s`, not a copy of self.scoring: clip penalties (and anything else '
                                             'the constructor defaults) differ from the original' % w[1][:90])
     rep.floor(rule, 'aligner Clone impls', n, len(types))
+
+
+# ------------------------------------------------------------------------------------------------ CF-2 (several)
+_FOLD = ('to_ascii_uppercase', 'to_ascii_lowercase', 'eq_ignore_ascii_case', 'make_ascii_uppercase', 'make_ascii_lowercase',
+         'to_uppercase', 'to_lowercase')
+
+
+def cf2(facts, rep, prefixes, floor, rule='CF-2'):
+    rep.rule(rule, 'symbols are bytes and are compared as they are: no function of the listed modules folds ASCII case '
+                   '(to_ascii_uppercase / eq_ignore_ascii_case / ...). The library documents exact byte semantics (soft-masked '
+                   'lower-case bases are different symbols); a comparison that folds case on one side only - or at all - makes '
+                   'Match/Subst labels, node reuse, codon tests or occurrences disagree with the definition')
+    n = 0
+    hits = []
+    for b in facts.body_list:
+        if not b.path.startswith(tuple(prefixes)) and not b.path.startswith(tuple('<' + p for p in prefixes)):
+            continue
+        if '::tests' in b.path or '::test' in b.path.split('::')[-1:]:
+            continue
+        n += 1
+        for bb, t in b.calls():
+            info = call_info(t)
+            if info and info['fn'].rsplit('::', 1)[-1] in _FOLD:
+                hits.append((b, bb, info['fn']))
+    key = 'no-case-folding|%s' % ','.join(p.rstrip(':') for p in prefixes)
+    if hits:
+        rep.analysed_body(hits[0][0])
+        rep.bad(rule, key, hits[0][0].loc(hits[0][1]), '%s calls %s: symbols that differ only in case are treated as equal here but '
+                                                        'not elsewhere' % (hits[0][0].path[:80], hits[0][2].rsplit('::', 1)[-1]))
+    else:
+        rep.ok(rule, key, '-', '%d bodies, none folds case' % n)
+    rep.floor(rule, 'bodies scanned for case folding', n, floor)
